@@ -48,7 +48,7 @@ func (self *TextCommandConverter) FindHandler(name string) (ConvertTextCommand, 
 		self.handlers["DECR"] = self.ConvertTextDecrCommand
 		self.handlers["DECRBY"] = self.ConvertTextDecrCommand
 		self.handlers["EXPIRE"] = self.ConvertTextExpireCommand
-		self.handlers["PEXPIREAT"] = self.ConvertTextExpireCommand
+		self.handlers["EXPIREAT"] = self.ConvertTextExpireCommand
 		self.handlers["PEXPIRE"] = self.ConvertTextExpireCommand
 		self.handlers["PEXPIREAT"] = self.ConvertTextExpireCommand
 		self.handlers["PERSIST"] = self.ConvertTextExpireCommand
